@@ -18,6 +18,14 @@ vars == <<l, nbad, nsingle, nany>>
 Fld(r, f) == IF f \in DOMAIN r THEN r[f] ELSE <<>>
 Expect(r) == Eval(r.tree, Env0(Fld(r, "bind"), Fld(r, "progs"), Fld(r, "funcs")))
 
+(* laws that hold even where the outcome is not unique: a sort result is an ordered permutation (C04) *)
+SortLaw(r, ob) ==
+    LET t == r.tree IN
+    (t.k = "mcall" /\ t.f = "sort" /\ t.r.k = "id" /\ t.r.n \in DOMAIN Fld(r, "bind"))
+      => LET v == r.bind[t.r.n] IN
+         (v.t = "list" /\ Comparable(v.s))
+           => (ob.out.o = "ok" /\ ob.out.v.t = "list" /\ IsSorted(ob.out.v.s) /\ IsPerm(v.s, ob.out.v.s))
+
 ObsOk(ob, e) == /\ Matches(ob.out, e.o)
                 /\ (e.lk /\ "log" \in DOMAIN ob => ob.log = e.log)
                 /\ ("bind_ok" \in DOMAIN ob => ob.bind_ok)
@@ -26,7 +34,7 @@ Init == l = 1 /\ nbad = 0 /\ nsingle = 0 /\ nany = 0
 Step == /\ l <= Len(Rec)
         /\ LET r == Rec[l]
                e == Expect(r)
-               badObs == {i \in 1..Len(r.obs) : ~ObsOk(r.obs[i], e)}
+               badObs == {i \in 1..Len(r.obs) : ~ObsOk(r.obs[i], e) \/ ~SortLaw(r, r.obs[i])}
            IN /\ nbad' = nbad + Cardinality(badObs)
               /\ nsingle' = nsingle + (IF e.o.o \in {"ok", "err"} /\ (e.o.o = "err" => e.o.c # "either") THEN 1 ELSE 0)
               /\ nany' = nany + (IF e.o.o = "any" THEN 1 ELSE 0)
